@@ -1,7 +1,7 @@
 CONSTANTS
   MaxDepth = 2
-  DeepAll = FALSE
-  SeedKinds = {"String", "Int", "Float", "Boolean", "Enum", "Scalar"}
+  DeepAll = "quick"
+  SeedKinds = {"String", "Int", "Float", "Boolean", "Enum", "Scalar", "BigInt", "Custom", "StaticString", "EmptyObject", "EmptyArray", "Null"}
 SPECIFICATION Spec
 INVARIANTS SpecSelfConsistent WellTypedExact RejectsNaive Emit
 CHECK_DEADLOCK FALSE
